@@ -112,6 +112,13 @@ static void verify_with_reference(const hist_t* h, const uint8_t* img, size_t le
         const ref_schema_elem* e = &f.meta.schema[f.leaves.leaf_schema_idx[c]];
         if (e->name.n != (int32_t)strlen(h->cols[c].name) || memcmp(e->name.p, h->cols[c].name, (size_t)e->name.n) || e->type != h->cols[c].ptype || !e->has_rep || e->rep != (h->cols[c].opt ? 1 : 0) ||
             (h->cols[c].ptype == PT_FLBA && (!e->has_type_length || e->type_length != h->cols[c].tlen))) mc_fail("ref-reader.table.schema", "column %d schema element differs from what was declared", c);
+        { carquet_logical_type_t lt; bool has = tbl_logical_of(h, c, &lt);      /* the annotation declared, in the footer's own terms (Thrift union member ids; units 1..3) */
+          static const int TID[16] = { 0, 1, 2, 3, 4, 5, 6, 7, 8, 10, 11, 12, 13, 14, 15, 0 };
+          bool ok = has == e->has_logical && (!has || (e->logical.id == TID[lt.id & 15] &&
+                    (lt.id != CARQUET_LOGICAL_TIMESTAMP || (e->logical.unit == (int)lt.params.timestamp.unit + 1 && e->logical.utc == lt.params.timestamp.is_adjusted_to_utc)) &&
+                    (lt.id != CARQUET_LOGICAL_TIME || (e->logical.unit == (int)lt.params.time.unit + 1 && e->logical.utc == lt.params.time.is_adjusted_to_utc)) &&
+                    (lt.id != CARQUET_LOGICAL_INTEGER || (e->logical.bit_width == lt.params.integer.bit_width && e->logical.is_signed == lt.params.integer.is_signed))));
+          if (!ok) mc_fail("ref-reader.table.schema.logical-type", "column %d: declared %s logical type id %d, the footer has %s id %d unit %d utc %d width %d", c, has ? "a" : "no", has ? (int)lt.id : -1, e->has_logical ? "thrift" : "no", e->has_logical ? e->logical.id : -1, e->logical.unit, (int)e->logical.utc, e->logical.bit_width); }
     }
     int gi = 0;
     for (int g = 0; g < h->nrg; g++) {
@@ -367,4 +374,4 @@ static void enumerate(void) {
         }
     }
 }
-int main(int argc, char** argv) { return mc_main(argc, argv, "rt", enumerate); }
+int main(int argc, char** argv) { tbl_logical_on = 1; return mc_main(argc, argv, "rt", enumerate); }
